@@ -42,6 +42,8 @@ class LawfulNum (α : Type) [NumOps α] [Lean.Grind.Field α] where
   lt_mul_pos : ∀ a b c : α, Pos c → NumOps.lt (a * c) (b * c) = NumOps.lt a b
   le_iff : ∀ a b : α, NumOps.le a b = true ↔ (NumOps.lt a b = true ∨ a = b)
   isNaN_false : ∀ a : α, NumOps.isNaN a = false
+  le_mul_pos : ∀ a b c : α, Pos c → NumOps.le (a * c) (b * c) = NumOps.le a b
+  abs_mul_pos : ∀ a c : α, Pos c → NumOps.abs (a * c) = NumOps.abs a * c
 
 variable {α : Type} [NumOps α] [Lean.Grind.Field α] [L : LawfulNum α]
 
